@@ -113,18 +113,19 @@ impl<'a> TemporalIndexBuilder<'a> {
 
                 let min_ts = *ts_vals.iter().min().unwrap_or(&0);
                 let max_ts = *ts_vals.iter().max().unwrap_or(&0);
-                if min_ts >= 0 && max_ts >= 0 {
-                    let entry = calendars
-                        .entry(field.clone())
-                        .or_insert_with(|| TemporalCalendarIndex::new(field.clone()));
-                    if max_ts - min_ts <= MAX_CALENDAR_RANGE_SECS {
-                        entry.add_zone_range(zp.id, min_ts as u64, max_ts as u64);
-                    } else {
-                        // Payload values too far apart to visit every bucket between them:
-                        // record only the buckets that hold a value (all a lookup needs)
-                        for &t in &ts_vals {
-                            entry.add_zone_range(zp.id, t as u64, t as u64);
-                        }
+                // The calendar has no buckets before 1970: values before it are recorded in the
+                // first bucket (where TemporalPruner looks a negative literal up), so that every
+                // zone has an entry; the signed range check is left to the zone's temporal index.
+                let entry = calendars
+                    .entry(field.clone())
+                    .or_insert_with(|| TemporalCalendarIndex::new(field.clone()));
+                if max_ts - min_ts <= MAX_CALENDAR_RANGE_SECS {
+                    entry.add_zone_range(zp.id, min_ts.max(0) as u64, max_ts.max(0) as u64);
+                } else {
+                    // Payload values too far apart to visit every bucket between them:
+                    // record only the buckets that hold a value (all a lookup needs)
+                    for &t in &ts_vals {
+                        entry.add_zone_range(zp.id, t.max(0) as u64, t.max(0) as u64);
                     }
                 }
             }
